@@ -474,6 +474,12 @@ func runPartialEquality(c *Ctx, r *Rep) {
 						r.ok(key, be.Pos(), "reviewed: %s", why)
 						return true
 					}
+					for _, from := range knownCallers(c, p, fd) {
+						if why, ok := confirmedIfaceEq[from+"|"+exprStr(be)]; ok {
+							r.ok(key, be.Pos(), "reviewed in %s, from which this helper was extracted: %s", from, why)
+							return true
+						}
+					}
 					r.bad(key, be.Pos(), "`%s` compares two arbitrary Python objects with Go's interface equality: when both are tuples, bytes or dicts (uncomparable Go types) the comparison panics at run time — `t is t`, `d is d`, `(1, 2) in [(1, 2)]` end in SystemError; use an identity helper that handles slice- and map-backed objects", exprStr(be))
 					return true
 				})
